@@ -987,6 +987,60 @@ func c14EndToEnd(c *Ctx, cases *[]Case, sub func() *rand.Rand) {
 		}()
 	}
 
+	// ---- (5c) the remote ends the session while delivered ARQ frames are still UNREAD: nothing delivered may be lost ----
+	for i := 0; i < c.Budget(4, 40) && c.TimeLeft() && c14Hangs < 6; i++ {
+		tcp := false // one ordered stream (see 5a)
+		nF := 5 + rng.Intn(30)
+		var want []byte
+		var frames [][]byte
+		for j := 0; j < nF; j++ {
+			f := c14RandBytes(rng, 1+rng.Intn(40))
+			frames = append(frames, f)
+			want = append(want, f...)
+		}
+		end := []string{"DISCONNECTED", "NEWSTATE DISC"}[rng.Intn(2)]
+		rep := map[string]interface{}{"mode": "serial", "arq_frames": nF, "bytes": len(want), "then": end, "reader": "starts reading only after the end of the session has been reported"}
+		env, err := c14Open(tcp, nil)
+		if err != nil {
+			c.Violate("C14:open-failed", "ardop.Open against the simulated TNC failed: "+err.Error(), rep)
+			continue
+		}
+		func() {
+			defer env.shutdown()
+			if err := env.dial(); err != nil {
+				c.Violate("C14:connect-failed:dial", "no connection against the simulated TNC: "+err.Error(), rep)
+				return
+			}
+			for _, f := range frames {
+				env.sim.sendData("ARQ", f)
+			}
+			env.sim.sendCtrl(end)
+			env.settle(300 * time.Millisecond)
+			time.Sleep(30 * time.Millisecond) // the end of the session has been handled by now
+			var got []byte
+			var rerr error
+			hang, pv := c14Watch1(c14Watch, func() {
+				buf := make([]byte, 1+rng.Intn(64))
+				for {
+					n, err := env.conn.Read(buf)
+					got = append(got, buf[:n]...)
+					if err != nil {
+						rerr = err
+						return
+					}
+				}
+			})
+			if hang || pv != nil {
+				c.Violate("C14:read-hang", fmt.Sprintf("conn.Read blocked or panicked (hang=%v panic=%v) after the remote ended the session with %d delivered bytes unread", hang, pv, len(want)), rep)
+				return
+			}
+			if !bytes.Equal(got, want) {
+				c.Violate("C14:stream-differs:unread-at-disconnect", fmt.Sprintf("Read returned %d bytes (then %v), the TNC had delivered ARQ payloads of %d bytes before it reported %s; first difference at %d", len(got), rerr, len(want), end, firstDiff(got, want)), rep)
+			}
+			c.Res.Distribution["e2e-rx-unread-at-disconnect(oracle only)"]++
+		}()
+	}
+
 	// ---- (5b) back-to-back writes over a SLOW serial link with a TNC that reports BUFFER early ----
 	// The TNC may report BUFFER (for earlier data) as soon as it has seen a data frame's header; Write then
 	// returns while the frame's tail is still going out on the link. Whatever the host does next, every data
